@@ -28,7 +28,9 @@ func (s *Sim) addTimer(d time.Duration, fire func()) *timerEv {
 }
 
 func (s *Sim) newTimerChan() chan time.Time {
+	s.inTimerSetup = true
 	ch := Make[time.Time](1)
+	s.inTimerSetup = false
 	m := s.model(ch)
 	m.timer = true
 	m.nm = "tm" + strconv.Itoa(m.id)
